@@ -29,9 +29,9 @@ func init() {
 }
 
 type schedRoles struct {
-	T        *types.Named // actor-level scheduler implementing vivid.Scheduler
-	Keys     *types.Var   // reference -> job key
-	Inner    *types.Var   // underlying scheduler
+	T        *types.Named  // actor-level scheduler implementing vivid.Scheduler
+	Keys     *types.Var    // reference -> job key
+	Inner    *types.Var    // underlying scheduler
 	Schedule *ssa.Function // internal helper that registers a job
 	KeyFn    *ssa.Function // builds the job key
 	TellFn   *ssa.Function // job callback target
